@@ -6,20 +6,24 @@
 (* shape follows the C code (same locals, same order of tests), not the    *)
 (* documents - the documents are Pop3.tla.                                 *)
 (*                                                                         *)
-(* WordMod models the width of `unsigned long': scan_ulong accumulates     *)
-(* result*10+c without an overflow test, i.e. modulo 2^64.  TLC integers   *)
+(* WordMod models the width of `unsigned long': scan_ulong as found         *)
+(* accumulated result*10+c without an overflow test, i.e. modulo 2^64      *)
+(* (ScanWraps = TRUE); the repaired one saturates.  TLC integers           *)
 (* are 32 bit, so the model word is WordMod (0 = unbounded arithmetic);    *)
 (* the number WordMod+1 plays the role 2^64+1 plays for the real program.  *)
 (***************************************************************************)
 EXTENDS Pop3
-CONSTANT WordMod
+CONSTANTS WordMod,
+          ScanWraps      \* TRUE: scan_ulong as found (result*10+c modulo the word); FALSE: as repaired by the
+                         \* "fix: scan_ulong: saturate instead of wrapping around" commit (sticks at the largest word)
 
 Wrap(v) == IF WordMod = 0 THEN v ELSE v % WordMod
+Sat(v) == IF WordMod = 0 THEN v ELSE IF v >= WordMod THEN WordMod - 1 ELSE v
 
 \* scan_ulong(s,&u): returns the number of digits consumed (pos) and the value
 CScanUlong(s) ==
   LET pos == DigitPrefixLen(s)
-  IN [pos |-> pos, u |-> Wrap(Val(SubSeq(s, 1, pos)))]
+  IN [pos |-> pos, u |-> IF ScanWraps THEN Wrap(Val(SubSeq(s, 1, pos))) ELSE Sat(Val(SubSeq(s, 1, pos)))]
 
 \* commands(): verb = text before the first space, arg = rest with leading spaces skipped
 \* (the model hands verb and arg over separately; this is the argument skipping)
